@@ -39,6 +39,15 @@ def cases(tier, rng):
     for order in (0, 1):
         line = "c05two %d" % order
         cs.append({"line": line, "key": line, "model": False, "tags": {"carrier": "two-upstreams", "order": order}})
+    # the same decisions with certificate, key and CA given to both configurations as FILE NAMES
+    for k in ("tls-socket", "starttls-socket", "starttls-kcp"):
+        for sc in ("good", "untrusted"):
+            for cc in ("none", "client-good", "client-foreign"):
+                for req in (0, 1):
+                    if tier != "thorough" and k == "starttls-kcp" and not (sc == "good" and req == 1):
+                        continue
+                    line = "c05 %s %s 0 %s %d 0 files" % (k, sc, cc, req)
+                    cs.append({"line": line, "key": line, "tags": {"carrier": k, "scert": sc, "ins": 0, "ccert": cc, "req": req, "must": 0}})
     # a peer of the harness's own making that completes the session handshake without asking for StartTLS (it presents no certificate)
     # against each kind of real server that has a certificate: let in only when client certificates are not required
     for k in ("starttls-socket", "starttls-ws", "starttls-kcp"):
